@@ -942,6 +942,234 @@ fn run_case_threaded(case: &Value, tokio_rt: &tokio::runtime::Runtime, tasklog: 
 }
 
 // ---------------------------------------------------------------------------------------------
+// 5. mq: drive the REAL MergeQueue bookkeeping step by step (hooks verif_merge_queue, verif_state,
+//    verif_hooks::IN_FLIGHT).  Script tokens (space separated):
+//      f<p>:<k>   partition p finalizes with k sorted blocks (add_sorted_partition)
+//      p<p>[ .. ] partition p calls poll_merge_next; if two runs were popped, the tokens in the
+//                 brackets run WHILE that merge is in flight (lock released); otherwise skipped
+//      t<p>       partition p calls take_sorted_run
+//    One event string per executed step: "<op> <result> w=<woken partitions> | runs/remaining/running/complete".
+mod mq {
+    use std::cell::RefCell;
+    use std::sync::Arc;
+    use std::sync::atomic::{AtomicBool, Ordering};
+    use std::task::{Context, Wake, Waker};
+
+    use glaredb_core::arrays::array::Array;
+    use glaredb_core::arrays::datatype::DataType;
+    use glaredb_core::arrays::row::row_layout::RowLayout;
+    use glaredb_core::arrays::scalar::ScalarValue;
+    use glaredb_core::arrays::sort::partial_sort::PartialSortedRowCollection;
+    use glaredb_core::arrays::sort::sort_layout::{SortColumn, SortLayout};
+    use glaredb_core::buffer::buffer_manager::DefaultBufferManager;
+    use glaredb_core::execution::operators::sort::verif_merge_queue::{MergeQueue, PollMerge, verif_hooks};
+    use serde_json::{Value, json};
+
+    #[derive(Debug, Clone)]
+    pub enum Op {
+        Fin(usize, usize),
+        Poll(usize, Vec<Op>),
+        Take(usize),
+    }
+
+    struct Flag(AtomicBool);
+    impl Wake for Flag {
+        fn wake(self: Arc<Self>) {
+            self.0.store(true, Ordering::SeqCst);
+        }
+        fn wake_by_ref(self: &Arc<Self>) {
+            self.0.store(true, Ordering::SeqCst);
+        }
+    }
+
+    struct Ctx {
+        queue: Arc<MergeQueue>,
+        key_layout: SortLayout,
+        data_layout: RowLayout,
+        flags: Vec<Arc<Flag>>,
+        out: Vec<String>,
+        pending_sub: Vec<Vec<Op>>,
+        counter: i32,
+    }
+
+    thread_local! {
+        static CTX: RefCell<Option<Ctx>> = const { RefCell::new(None) };
+    }
+
+    fn parse(tokens: &[String], pos: &mut usize) -> Result<Vec<Op>, String> {
+        let mut ops = Vec::new();
+        while *pos < tokens.len() {
+            let t = tokens[*pos].clone();
+            if t == "]" {
+                return Ok(ops);
+            }
+            *pos += 1;
+            let kind = t.chars().next().unwrap();
+            let body = &t[1..];
+            match kind {
+                'f' => {
+                    let (a, b) = body.split_once(':').ok_or("bad f token")?;
+                    ops.push(Op::Fin(a.parse().map_err(|_| "bad p")?, b.parse().map_err(|_| "bad k")?));
+                }
+                't' => ops.push(Op::Take(body.parse().map_err(|_| "bad p")?)),
+                'p' => {
+                    let p: usize = body.trim_end_matches('[').parse().map_err(|_| "bad p")?;
+                    let sub = parse(tokens, pos)?;
+                    if *pos >= tokens.len() || tokens[*pos] != "]" {
+                        return Err("unclosed [".into());
+                    }
+                    *pos += 1;
+                    ops.push(Op::Poll(p, sub));
+                }
+                _ => return Err(format!("bad token {t}")),
+            }
+        }
+        Ok(ops)
+    }
+
+    fn state_str(q: &MergeQueue) -> String {
+        let (runs, rem, running, complete) = q.verif_state();
+        format!("{runs}/{rem}/{running}/{}", if complete { 1 } else { 0 })
+    }
+
+    fn woken() -> String {
+        CTX.with(|c| {
+            let c = c.borrow();
+            let c = c.as_ref().unwrap();
+            let mut w = Vec::new();
+            for (i, f) in c.flags.iter().enumerate() {
+                if f.0.swap(false, Ordering::SeqCst) {
+                    w.push(i.to_string());
+                }
+            }
+            w.join(",")
+        })
+    }
+
+    fn emit(s: String) {
+        CTX.with(|c| c.borrow_mut().as_mut().unwrap().out.push(s));
+    }
+
+    fn in_flight_cb(p: usize) {
+        let (q, sub) = CTX.with(|c| {
+            let mut c = c.borrow_mut();
+            let c = c.as_mut().unwrap();
+            (c.queue.clone(), c.pending_sub.pop().unwrap_or_default())
+        });
+        emit(format!("p{p} pop w={} | {}", woken(), state_str(&q)));
+        exec(&sub);
+    }
+
+    fn exec(ops: &[Op]) {
+        for op in ops {
+            let q = CTX.with(|c| c.borrow().as_ref().unwrap().queue.clone());
+            match op {
+                Op::Fin(p, k) => {
+                    let (kl, dl, base) = CTX.with(|c| {
+                        let mut c = c.borrow_mut();
+                        let c = c.as_mut().unwrap();
+                        c.counter += 100;
+                        (c.key_layout.clone(), c.data_layout.clone(), c.counter)
+                    });
+                    let before = q.verif_state().0;
+                    let res = (|| -> Result<(), String> {
+                        let mut coll = PartialSortedRowCollection::new(kl, dl, 16);
+                        let mut st = coll.init_append_state();
+                        for b in 0..*k {
+                            let mut arr = Array::new(&DefaultBufferManager, DataType::int32(), 2).map_err(|e| e.to_string())?;
+                            arr.set_value(0, &ScalarValue::Int32(base + 2 * b as i32 + 1)).map_err(|e| e.to_string())?;
+                            arr.set_value(1, &ScalarValue::Int32(base + 2 * b as i32)).map_err(|e| e.to_string())?;
+                            let arrs = [arr];
+                            coll.append_unsorted_keys_and_data(&mut st, &arrs, &arrs, 2).map_err(|e| e.to_string())?;
+                            coll.sort_unsorted(None).map_err(|e| e.to_string())?;
+                        }
+                        q.add_sorted_partition(coll).map_err(|e| e.to_string().lines().next().unwrap_or("").to_string())
+                    })();
+                    let after = q.verif_state().0;
+                    let r = match res {
+                        Ok(()) => "ok".to_string(),
+                        Err(_) => "err".to_string(),
+                    };
+                    emit(format!("f{p} {r} k={} w={} | {}", after.saturating_sub(before), woken(), state_str(&q)));
+                }
+                Op::Poll(p, sub) => {
+                    let waker: Waker = CTX.with(|c| {
+                        let mut c = c.borrow_mut();
+                        let c = c.as_mut().unwrap();
+                        c.pending_sub.push(sub.clone());
+                        Waker::from(c.flags[*p].clone())
+                    });
+                    let depth = CTX.with(|c| c.borrow().as_ref().unwrap().pending_sub.len());
+                    let mut cx = Context::from_waker(&waker);
+                    let r = q.poll_merge_next(&mut cx, *p);
+                    // not in flight: the sub-script was not consumed
+                    CTX.with(|c| {
+                        let mut c = c.borrow_mut();
+                        let c = c.as_mut().unwrap();
+                        if c.pending_sub.len() >= depth {
+                            c.pending_sub.truncate(depth - 1);
+                        }
+                    });
+                    let r = match r {
+                        Ok(PollMerge::Finished) => "finished",
+                        Ok(PollMerge::Merged) => "merged",
+                        Ok(PollMerge::Pending) => "pending",
+                        Err(_) => "err",
+                    };
+                    emit(format!("p{p} {r} w={} | {}", woken(), state_str(&q)));
+                }
+                Op::Take(p) => {
+                    let r = match q.take_sorted_run() {
+                        Ok(Some(_)) => "some",
+                        Ok(None) => "none",
+                        Err(_) => "err",
+                    };
+                    emit(format!("t{p} {r} w={} | {}", woken(), state_str(&q)));
+                }
+            }
+        }
+    }
+
+    pub fn run_case(case: &Value) -> Value {
+        let parts = case["parts"].as_u64().unwrap_or(2) as usize;
+        let script = case["script"].as_str().unwrap_or("");
+        let tokens: Vec<String> = script.split_whitespace().map(|s| s.to_string()).collect();
+        let mut pos = 0;
+        let ops = match parse(&tokens, &mut pos) {
+            Ok(o) if pos == tokens.len() => o,
+            Ok(_) => return json!({"id": case["id"], "bad_script": "unbalanced ]"}),
+            Err(e) => return json!({"id": case["id"], "bad_script": e}),
+        };
+        let key_layout = SortLayout::try_new([SortColumn {
+            desc: false,
+            nulls_first: false,
+            datatype: DataType::int32(),
+        }])
+        .unwrap();
+        let data_layout = RowLayout::try_new([DataType::int32()]).unwrap();
+        let queue = Arc::new(MergeQueue::new(key_layout.clone(), data_layout.clone(), 16, None));
+        queue.prepare_for_partitions(parts);
+        let flags = (0..parts).map(|_| Arc::new(Flag(AtomicBool::new(false)))).collect();
+        CTX.with(|c| {
+            *c.borrow_mut() = Some(Ctx {
+                queue: queue.clone(),
+                key_layout,
+                data_layout,
+                flags,
+                out: vec![format!("init | {}", state_str(&queue))],
+                pending_sub: Vec::new(),
+                counter: 0,
+            })
+        });
+        verif_hooks::IN_FLIGHT.with(|c| c.set(Some(in_flight_cb as fn(usize))));
+        exec(&ops);
+        verif_hooks::IN_FLIGHT.with(|c| c.set(None));
+        let out = CTX.with(|c| c.borrow_mut().take().unwrap().out);
+        json!({"id": case["id"], "events": out})
+    }
+}
+
+// ---------------------------------------------------------------------------------------------
 
 fn main() {
     // Quiet panics: a one-line message on stderr is enough, results carry the outcome class.
@@ -950,9 +1178,9 @@ fn main() {
     }));
     let args: Vec<String> = std::env::args().collect();
     let sub = match args.get(1).map(|s| s.as_str()) {
-        Some(s @ ("stack" | "det" | "threaded" | "tasklog")) => s.to_string(),
+        Some(s @ ("stack" | "det" | "threaded" | "tasklog" | "mq")) => s.to_string(),
         _ => {
-            eprintln!("usage: gv_sched <stack|det|threaded|tasklog> < cases.jsonl");
+            eprintln!("usage: gv_sched <stack|det|threaded|tasklog|mq> < cases.jsonl");
             std::process::exit(2);
         }
     };
@@ -999,6 +1227,7 @@ fn main() {
         }
         let r = catch_unwind(AssertUnwindSafe(|| match sub.as_str() {
             "stack" => run_case_stack(&case),
+            "mq" => mq::run_case(&case),
             "det" => run_case_det(&case, &tokio_rt),
             "threaded" => run_case_threaded(&case, &tokio_rt, false),
             _ => run_case_threaded(&case, &tokio_rt, true),
